@@ -13,7 +13,8 @@ PROPS_FILE = "Props/C03.v"
 
 
 def limits_distinct(c, d):
-    for el in c.get_elements(recursive=True):
+    # every element, those inside containers' sub-circuits included (get_elements(recursive=True) stops at containers)
+    for el in c.generate_element_identifiers(running=True).keys():
         lo, hi = el.get_lower_limits(), el.get_upper_limits()
         for k in lo:
             if ("%.*E" % (d, lo[k])) == ("%.*E" % (d, hi[k])) and lo[k] != float("-inf"):
